@@ -1258,7 +1258,7 @@ def cases(draw, nitems=20):
 
 
 def plan(tier, seed, jobs):
-    n = 60 if tier == "quick" else 700
+    n = 60 if tier == "quick" else 2500
     return [{"seed": seed * 1000 + k, "n": n} for k in range(jobs)]
 
 
